@@ -785,6 +785,7 @@ func c09E2E(c *Ctx, tuples []c09Tuple) {
 		}(ci)
 	}
 	wg.Wait()
+	c09SameTextTwice(c, bed)
 
 	if atomic.LoadInt32(&stalls) >= c09MaxStalls {
 		r.Inconc(fmt.Sprintf("C09 e2e: %d requests were never answered; the rest of this shard's sample was abandoned", stalls))
@@ -936,5 +937,82 @@ func c09E2E(c *Ctx, tuples []c09Tuple) {
 			Scenario: t.scenario("e2e"),
 			Witness: map[string]interface{}{"tuple": t.describe(), "minimal_tuple": m.describe(), "tokens": []string{run.TokQ, run.TokP, run.TokE}, "prepared_id": hex.EncodeToString(run.ID),
 				"backend_arrivals": map[string]interface{}{"query": seen[run.TokQ], "prepare": seen[run.TokP], "execute": seen[run.TokE]}}})
+	}
+}
+
+// c09SameTextTwice: whether a statement is the proxy's own depends on the connection's current keyspace, not only on its
+// text. The identical unqualified text is sent on a connection without keyspace (or in a user keyspace), where it must be
+// forwarded, and on a connection in keyspace system, where the proxy must answer it - in both orders, as QUERY and as
+// PREPARE. The texts are unique per pair, so the backend log shows exactly which of the two sends reached it.
+func c09SameTextTwice(c *Ctx, bed *px.Bed) {
+	r := c.R
+	sysCl, err := c09Connect(bed, c09Val{Text: "system"})
+	if err != nil {
+		r.Inconc("C09 same-text: " + err.Error())
+		return
+	}
+	defer sysCl.Close()
+	userCl, err := c09Connect(bed, c09Val{Text: "ks1"})
+	if err != nil {
+		r.Inconc("C09 same-text: " + err.Error())
+		return
+	}
+	defer userCl.Close()
+	noneCl, err := c09Connect(bed, c09Val{})
+	if err != nil {
+		r.Inconc("C09 same-text: " + err.Error())
+		return
+	}
+	defer noneCl.Close()
+	stream := int16(100)
+	send := func(cl *rawcql.Client, text string, prepare bool) {
+		stream++
+		var msg message.Message = &message.Query{Query: text, Options: &message.QueryOptions{Consistency: primitive.ConsistencyLevelOne}}
+		if prepare {
+			msg = &message.Prepare{Query: text}
+		}
+		_, _ = cl.Call(stream, msg, c09Wait)
+	}
+	n := 0
+	for _, tbl := range []string{"local", "peers", "peers_v2", "LOCAL", `"local"`} {
+		for _, sel := range []string{"*", "key", "count(*)"} {
+			for order := 0; order < 2; order++ {
+				for _, prepare := range []bool{false, true} {
+					for oi, other := range []*rawcql.Client{noneCl, userCl} {
+						n++
+						lit := fmt.Sprintf("sametext%04d", n)
+						text := fmt.Sprintf("SELECT %s FROM %s WHERE key='%s'", sel, tbl, lit)
+						mark := bed.Log.Len()
+						if order == 0 {
+							send(other, text, prepare)
+							send(sysCl, text, prepare)
+						} else {
+							send(sysCl, text, prepare)
+							send(other, text, prepare)
+						}
+						// barrier on both connections: one forwarded statement each
+						send(other, "SELECT * FROM ks1.t WHERE key='"+NewTok()+"'", false)
+						seen := 0
+						for _, e := range bed.Log.Snapshot()[mark:] {
+							if e.Src == "backend" && e.K == "recv" && !e.Ctl && bytes.Contains(e.Body, []byte(lit)) {
+								seen++
+							}
+						}
+						r.Eval(1)
+						r.Obs("same_text_pairs", 1)
+						r.NonTrivial(fmt.Sprintf("same-text/%s/%s/order=%d/prepare=%v/other=%d", tbl, sel, order, prepare, oi))
+						if seen != 1 {
+							what := "system-read-forwarded"
+							if seen == 0 {
+								what = "user-statement-intercepted"
+							}
+							r.Violate(mon.Violation{Signature: fmt.Sprintf("C09/same-text-other-keyspace/%s/prepare=%v", what, prepare),
+								Detail:   fmt.Sprintf("the text %q was sent on a connection %s and on a connection in keyspace system (%s first); it must reach a backend exactly once (from the former), it reached one %d times", text, []string{"without current keyspace", "in keyspace ks1"}[oi], []string{"the former", "the latter"}[order], seen),
+								Scenario: map[string]interface{}{"kind": "c09-same-text", "n": n}})
+						}
+					}
+				}
+			}
+		}
 	}
 }
